@@ -42,6 +42,7 @@ import (
 	"flag"
 	"fmt"
 	"log"
+	"math"
 	"strings"
 	"sync"
 	"time"
@@ -74,12 +75,19 @@ func (t timeResult) worstCaseDrift() time.Duration {
 	// The worst-case drift is the difference between local time when
 	// starting the measurement and remote time plus however long the
 	// measurement itself took.
+	const maxDuration = time.Duration(math.MaxInt64)
 	drift := t.Result.Sub(t.Start)
 	if drift < 0 {
 		drift = -drift
 	}
-	drift += t.End.Sub(t.Start)
-	return drift
+	measurement := t.End.Sub(t.Start)
+	// Time.Sub saturates: for clocks that are centuries apart it returns the
+	// minimum Duration, whose negation overflows, and the addition below can
+	// overflow as well. Never report such a drift as a small (negative) one.
+	if drift < 0 || measurement < 0 || drift > maxDuration-measurement {
+		return maxDuration
+	}
+	return drift + measurement
 }
 
 func getServerTime(server, networkPassword string) (timeResult, health.ServerStatus, error) {
